@@ -51,6 +51,7 @@ class C16(Engine):
     quick_budget = 45
     quick_runs = 5000
     thorough_budget = 1200
+    variants = ("small",)
     thorough_runs = 100000
     rule = ("run i = one forked naken_asm lifetime (real main(), ASan+UBSan) on a seeded SimFs workspace: corpus-based "
             "program for a seeded CPU wrapped in macros/.if/.repeat/.include/.binfile, plus 1-3 stressors drawn from "
@@ -68,6 +69,12 @@ class C16(Engine):
     SWEEP = 41478      # thorough tier: one run per (corpus instruction, token boundary) of engines/c16t.py
 
     def plan(self, rng, index):
+        plan = self._plan(rng, index)
+        # every third run uses the small-page / small-pool build of /repo
+        plan["build"] = "small" if index % 3 == 2 else "san"
+        return plan
+
+    def _plan(self, rng, index):
         if self.tier == "thorough" and self.directed() <= index < self.directed() + self.SWEEP:
             from engines import c16t
             return c16t.C16T(self.tier, self.seed).plan(rng, index - self.directed() + (self.seed % 9) * len(c16t.pairs()))
@@ -414,6 +421,7 @@ class C16(Engine):
     # -- execution + oracle ------------------------------------------------
     def run(self, ex, plan):
         res = RunResult()
+        ex = self.variant(ex, plan.get("build"))
         files = {k: v.encode("latin-1") for k, v in plan["files"].items()}
         tag = "+".join(sorted(set(plan["stressors"]))) or "none"
         env = dict(plan["env"])
